@@ -134,3 +134,11 @@ plan("C14", "exploration",
      "segments after a flush copy content from before it. Plus sequences of one-shot raw-deflate FULL_FLUSH calls. Non-trivial: a completed flush followed by >= 64 bytes repeating pre-flush content.",
      lambda tier: [S("C14", 8000 if tier == "quick" else 400000)],
      assumptions=["flush-point clauses are asserted only under the property's precondition (all input consumed, output space left)"])
+
+plan("C11", "fault_enumeration",
+     "Producer: generated inputs/levels/wrappers/chunkings, trailer compared with zlib crc32/adler32. Verifier: small wrapped streams from three encoders x 4 verifying modes x chunkings x kernels with "
+     "EVERY single-bit flip, EVERY truncation and a byte substitution at every offset (header, body, trailer); larger streams with a call boundary on every trailer byte and sampled corruptions. "
+     "Non-trivial: a corruption that changes the delivered bytes or the trailer.",
+     lambda tier: [S("C11", 1600 if tier == "quick" else 60000)],
+     assumptions=["success after a benign header flip (MTIME/XFL/OS) is correct: the oracle compares the delivered bytes with the trailer actually present",
+                  "the position of the trailer in a corrupted stream comes from the lenient RFC 1951 reference decoder"])
